@@ -153,10 +153,10 @@ def _mt(ref, text):
 
 
 MANIFEST_TEXT = {
-    "C13": _mt("DESIGN.md 6 C13", "StartAfterDepsOk, AttemptsBounded, NoRunAfterNil and the happens-before ghost HBDepsBeforeEntry are TLC invariants of Dag.tla over every DAG on 3 (thorough: 4) vertices x retries x limits x outcomes x all interleavings; the real Run is single-stepped through build-tag hooks by a seeded controller (each hooked goroutine parks until released), and every recorded event sequence must be a behaviour of the spec with all invariants evaluated at every step; memory visibility itself is checked by hook-free runs under the race detector with plain reads of what dependencies wrote."),
-    "C14": _mt("DESIGN.md 6 C14", "NoDependentOfFailed, NoDependentOfSkipParents, ReportComplete (exact content of the returned *Errors), SkipParentsSilent and the launch kinds after failure / observed cancellation are checked by TLC with cancellation at every point; recorded schedules of the real code with random outcomes and cancellation points are validated, including the entries of the returned error."),
-    "C15": _mt("DESIGN.md 6 C15", "ExecBound, SerialOne, SerialHB, TaskMutex (other graph modelled as an environment that locks the shared Task) and BlocksWhole are TLC invariants; real runs with low limits, serial mode, output buffering with multi-fragment tasks (recording writer) and two graphs sharing Task objects run concurrently are validated event by event (acquired only below the limit, every Write call equal to exactly one attempt's output)."),
-    "C16": _mt("DESIGN.md 6 C16", "Termination, ReadyStarts and InFlightFinish are checked by TLC under fairness; construction histories (AddTask / TaskDependsOn / TaskRetries in any order and repetition, duplicate and self edges, lookups of unknown tasks) up to 4 (thorough 5) calls are explored before Run; in recorded real runs an `idle` tick is accepted only when the spec has nothing eligible and is not done (work conservation), cycles / definition errors must be answered before any launch, DepthFirstSort output must be topological, and a run whose scheduler idles 3000 times with nothing else in flight is a stall."),
+    "C13": _mt("DESIGN.md 6 C13", "StartAfterDepsOk, AttemptsBounded, NoRunAfterNil and the happens-before ghost HBDepsBeforeEntry are TLC invariants of Dag.tla over every DAG on 3 (thorough: 4) vertices x retries x limits x outcomes x all interleavings; the real Run is single-stepped through build-tag hooks by a seeded controller (each hooked goroutine parks until released), and every recorded event sequence must be a behaviour of the spec with all invariants evaluated at every step; memory visibility itself is checked by hook-free runs under the race detector with plain reads of what dependencies wrote. Re-definition of a task with a fresh Task value, huge retry counts, wrapped sentinel errors and task errors that carry context.Canceled / DeadlineExceeded are part of the plans."),
+    "C14": _mt("DESIGN.md 6 C14", "NoDependentOfFailed, NoDependentOfSkipParents, ReportComplete (exact content of the returned *Errors), SkipParentsSilent and the launch kinds after failure / observed cancellation are checked by TLC with cancellation at every point; recorded schedules of the real code with random outcomes and cancellation points are validated, including the entries of the returned error. A Run repeated on the same graph must return what the first returned; a successful graph that is extended and run again (Continue) is explored by TLC (mode cont) and driven in the harness."),
+    "C15": _mt("DESIGN.md 6 C15", "ExecBound, SerialOne, SerialHB, TaskMutex (other graph modelled as an environment that locks the shared Task) and BlocksWhole are TLC invariants; real runs with low limits, serial mode, output buffering with multi-fragment tasks (recording writer) and two graphs sharing Task objects run concurrently are validated event by event (acquired only below the limit, every Write call equal to exactly one attempt's output). Continued runs with another limit, large (9000 byte) outputs, a writer that reports errors (FlushFail) and graphs that learn an ID through a Task value of their own before they get the shared one are covered."),
+    "C16": _mt("DESIGN.md 6 C16", "Termination, ReadyStarts and InFlightFinish are checked by TLC under fairness; construction histories (AddTask / TaskDependsOn / TaskRetries in any order and repetition, duplicate and self edges, lookups of unknown tasks) up to 4 (thorough 5) calls are explored before Run; in recorded real runs an `idle` tick is accepted only when the spec has nothing eligible and is not done (work conservation), cycles / definition errors must be answered before any launch, DepthFirstSort output must be topological, and a run whose scheduler idles 3000 times with nothing else in flight is a stall. Fill-the-semaphore schedules: workers are held inside their function until min(limit, in flight) are in; a launched worker that cannot take a free slot within 1500 scheduler ticks is a `starved` event (confirmed by re-execution alone). The empty graph and continued runs (narrow first, wider second round) are covered."),
 }
 
 
